@@ -347,6 +347,8 @@ def run(chk):
         "harness tools/props/c06.py (calls the real collection methods and number setters in-process)",
     ]
     leanio.prove(chk, "MontePyVerif.Props.C06", THEOREMS, "MontePyVerif.Collection")
+    if chk.thorough:
+        leanio.leanchecker(chk, ["MontePyVerif.Props.C06"])
     drv = leanio.Driver(chk, "drv_c06")
 
     rng = chk.rng("random")
